@@ -525,16 +525,17 @@ impl<const BITS: usize, const LIMBS: usize> TryFrom<f64> for Uint<BITS, LIMBS> {
         // All non-normal cases should have been handled above
         assert!(value.is_normal());
 
-        // Add offset to round to nearest integer.
-        let value = value + 0.5;
-
         // Parse IEEE-754 double
-        // Sign should be zero, exponent should be >= 0.
+        // Sign should be zero, exponent should be >= -1 (value is >= 0.5).
         let bits = value.to_bits();
         let sign = bits >> 63;
         assert!(sign == 0);
         let biased_exponent = (bits >> 52) & 0x7ff;
-        assert!(biased_exponent >= 1023);
+        assert!(biased_exponent >= 1022);
+        if biased_exponent == 1022 {
+            // Values in [0.5, 1) round to one.
+            return Self::try_from(1_u64);
+        }
         let exponent = biased_exponent - 1023;
         let fraction = bits & 0x000f_ffff_ffff_ffff;
         let mantissa = 0x0010_0000_0000_0000 | fraction;
@@ -545,9 +546,12 @@ impl<const BITS: usize, const LIMBS: usize> TryFrom<f64> for Uint<BITS, LIMBS> {
             // Wrapped value is zero because the value is extended with zero bits.
             return Err(ToUintError::ValueTooLarge(BITS, Self::ZERO));
         }
-        if exponent <= 52 {
-            // Truncate mantissa
-            Self::try_from(mantissa >> (52 - exponent))
+        if exponent == 52 {
+            Self::try_from(mantissa)
+        } else if exponent < 52 {
+            // Truncate mantissa, rounding half up on the integer mantissa so
+            // that no precision is lost.
+            Self::try_from(((mantissa >> (51 - exponent)) + 1) >> 1)
         } else {
             #[allow(clippy::cast_possible_truncation)] // exponent is small-ish
             let exponent = exponent as usize - 52;
